@@ -15,7 +15,7 @@ namespace Givaro {
     template<class Domain>
     inline Poly1Dom<Domain,Dense>::Poly1Dom(const Domain& d, const Indeter& X ) :
         _domain(d), _x(X)
-        , zero(1,d.zero), one(1,d.one)
+        , zero(0,d.zero), one(1,d.one)
         , mOne(1,d.mOne)
     {}
 
